@@ -1,3 +1,4 @@
+import QuillModel.Backend.FlushGate
 import QuillModel.Backend.FlushStep
 /-!
 # Progress of the backend under a quiet runner (C06: `flush_log()` returns as long as the backend keeps running)
@@ -725,6 +726,19 @@ theorem batchLoop_quiet_lt (hq : Quiet inj) (fuel : Nat) (h : PIo c fl s)
   · have := ((Fr.quiet hq (Backend.processLowest inj (Backend.hasPending s).1).1 4).sub.trans (batchLoop_sub hq fuel _)).pending_le
     omega
 
+theorem fr_flushGate (hq : Quiet inj) (s : BSt) (n : Nat) : Fr s (Backend.flushGate inj s n) := by
+  rcases flushGate_cases inj s n with ⟨_, e⟩ | ⟨_, e⟩ | ⟨_, e⟩ <;> rw [e]
+  · exact (slol_flushSinks _).fr
+  · exact Fr.quiet hq s 7
+  · have h1 : Fr (inj s 7) { inj s 7 with lastFlush := (inj s 7).now } := Fr.ofEq rfl rfl rfl rfl rfl rfl
+    exact ((Fr.quiet hq s 7).trans h1).trans (slol_flushSinks _).fr
+
+theorem fr_preEraseFlush (s : BSt) : Fr s (Backend.preEraseFlush s) := by
+  unfold Backend.preEraseFlush
+  split
+  · exact (slol_flushSinks _).fr
+  · exact Fr.refl _
+
 /-- **One quiet poll.** Nothing is added; if a record is pending anywhere (and every pending record is past its
     grace period) at least one event is popped. -/
 theorem poll_quiet (hq : Quiet inj) (h : PIo c fl s) (hr : Ripe s) :
@@ -765,13 +779,13 @@ theorem poll_quiet (hq : Quiet inj) (h : PIo c fl s) (hr : Ripe s) :
   · rename_i hc0
     have hcount : count = 0 := by
       apply Classical.byContradiction; intro hn; exact hc0 hn
-    have hsub : Sub s1 (if (Backend.allEmpty (Backend.checkFailures inj (flushSinks (inj s1 5)))).2 = true then
-        Backend.cleanupLoggers inj (Backend.cleanupContexts (Backend.allEmpty (Backend.checkFailures inj (flushSinks (inj s1 5)))).1)
-        else (Backend.allEmpty (Backend.checkFailures inj (flushSinks (inj s1 5)))).1) := by
-      have a1 : Fr s1 (Backend.allEmpty (Backend.checkFailures inj (flushSinks (inj s1 5)))).1 :=
-        (((Fr.quiet hq s1 5).trans (slol_flushSinks _).fr).trans (fr_checkFailures hq _)).trans (fr_allEmpty _)
+    have hsub : Sub s1 (if (Backend.allEmpty (Backend.checkFailures inj (Backend.flushGate inj (inj s1 5) (inj s1 5).cfg.flushInterval))).2 = true then
+        Backend.cleanupLoggers inj (Backend.preEraseFlush (Backend.cleanupContexts (Backend.allEmpty (Backend.checkFailures inj (Backend.flushGate inj (inj s1 5) (inj s1 5).cfg.flushInterval))).1))
+        else (Backend.allEmpty (Backend.checkFailures inj (Backend.flushGate inj (inj s1 5) (inj s1 5).cfg.flushInterval))).1) := by
+      have a1 : Fr s1 (Backend.allEmpty (Backend.checkFailures inj (Backend.flushGate inj (inj s1 5) (inj s1 5).cfg.flushInterval))).1 :=
+        (((Fr.quiet hq s1 5).trans (fr_flushGate hq _ _)).trans (fr_checkFailures hq _)).trans (fr_allEmpty _)
       split
-      · exact (a1.sub.trans (sub_cleanupContexts _)).trans (sub_cleanupLoggers hq _)
+      · exact ((a1.sub.trans (sub_cleanupContexts _)).trans (fr_preEraseFlush _).sub).trans (sub_cleanupLoggers hq _)
       · exact a1.sub
     refine ⟨g1.sub.trans hsub, fun hx => ?_⟩
     exfalso
